@@ -9,6 +9,7 @@ import (
 	"fmt"
 	"io"
 	"net"
+	"net/netip"
 	"os"
 	"sort"
 	"strings"
@@ -95,6 +96,31 @@ func muxPayload(kind string, seq int) []byte {
 type muxCfg struct {
 	Depth       int `json:"depth"`
 	WriteBuffer int `json:"write_buffer,omitempty"`
+	// Kind selects what sits between the application and the socket(s): "" UDPMuxDefault; "addrport" the same over
+	// a socket that offers netip.AddrPort I/O (the path a *net.UDPConn takes; handles are then used through their
+	// AddrPort methods); "universal" / "universal-addrport" UniversalUDPMuxDefault (its STUN-intercepting wrapper in
+	// front of the socket); "multi" MultiUDPMuxDefault over one mux per local address.
+	Kind string `json:"kind,omitempty"`
+}
+
+// botConnAP adds the netip.AddrPort methods to the socket.
+type botConnAP struct{ *botConn }
+
+func (b botConnAP) ReadFromAddrPort(p []byte) (int, netip.AddrPort, error) {
+	n, a, err := b.botConn.ReadFrom(p)
+	if err != nil {
+		return n, netip.AddrPort{}, err
+	}
+
+	return n, a.(*net.UDPAddr).AddrPort(), nil //nolint:forcetypeassert
+}
+
+func (b botConnAP) WriteToAddrPort(p []byte, _ netip.AddrPort) (int, error) { return len(p), nil }
+
+type udpMuxFront interface {
+	GetConn(ufrag string, addr net.Addr) (net.PacketConn, error)
+	RemoveConnByUfrag(ufrag string)
+	Close() error
 }
 
 // muxRef is the reference routing table. Connections are named by generation numbers.
@@ -113,8 +139,10 @@ type muxHandle struct {
 
 type muxModel struct {
 	cfg      muxCfg
-	bot      *botConn
-	m        *UDPMuxDefault
+	bot      *botConn            // socket of the IPv4 local address (the only socket unless Kind is "multi")
+	bot6     *botConn            // multi: socket of the IPv6 local address
+	front    udpMuxFront         // what the application talks to
+	ms       []*UDPMuxDefault    // the UDPMuxDefault instance(s) underneath, for the implementation-side state
 	ref      *muxRef
 	handles  map[string][]muxHandle // "ufrag/family" -> open handles (at most two)
 	seq      int
@@ -128,7 +156,24 @@ func newMuxModel(raw json.RawMessage) *muxModel {
 	mm := &muxModel{handles: map[string][]muxHandle{}, removed: map[int]bool{}, wroteTo: map[int]map[string]bool{}}
 	_ = json.Unmarshal(raw, &mm.cfg)
 	mm.bot = &botConn{in: make(chan botPkt), closed: make(chan struct{}), addr: &net.UDPAddr{IP: net.IPv4zero, Port: 7000}}
-	mm.m = NewUDPMuxDefault(UDPMuxParams{UDPConn: mm.bot, Logger: nopLogger{}, Net: vNet{}})
+	var sock net.PacketConn = mm.bot
+	if strings.HasSuffix(mm.cfg.Kind, "addrport") {
+		sock = botConnAP{mm.bot}
+	}
+	switch {
+	case strings.HasPrefix(mm.cfg.Kind, "universal"):
+		u := NewUniversalUDPMuxDefault(UniversalUDPMuxParams{UDPConn: sock, Logger: nopLogger{}, Net: vNet{}})
+		mm.front, mm.ms = u, []*UDPMuxDefault{u.UDPMuxDefault}
+	case mm.cfg.Kind == "multi":
+		mm.bot.addr = &net.UDPAddr{IP: net.ParseIP("10.0.0.1").To4(), Port: 7000}
+		mm.bot6 = &botConn{in: make(chan botPkt), closed: make(chan struct{}), addr: &net.UDPAddr{IP: net.ParseIP("2001:db8::1"), Port: 7000}}
+		m4 := NewUDPMuxDefault(UDPMuxParams{UDPConn: mm.bot, Logger: nopLogger{}, Net: vNet{}})
+		m6 := NewUDPMuxDefault(UDPMuxParams{UDPConn: mm.bot6, Logger: nopLogger{}, Net: vNet{}})
+		mm.front, mm.ms = NewMultiUDPMuxDefault(m4, m6), []*UDPMuxDefault{m4, m6}
+	default:
+		m := NewUDPMuxDefault(UDPMuxParams{UDPConn: sock, Logger: nopLogger{}, Net: vNet{}})
+		mm.front, mm.ms = m, []*UDPMuxDefault{m}
+	}
 	mm.ref = &muxRef{reg: map[string]int{}, owner: map[string]int{}, q: map[int][]string{}}
 	synctest.Wait()
 
@@ -153,6 +198,9 @@ func (mm *muxModel) Enabled() []string {
 		if len(mm.handles[k]) > 0 {
 			evs = append(evs, "close:"+k)
 			for _, a := range []string{"X", "Xm", "Y", "Z"} {
+				if mm.cfg.Kind == "multi" && muxFamily(a) != k[len(k)-1:] {
+					continue // one socket per local address: it cannot reach the other family (and replies come back to the socket that wrote)
+				}
 				evs = append(evs, "write:"+k+":"+a)
 			}
 		}
@@ -194,7 +242,7 @@ func (mm *muxModel) Apply(ev string) {
 	case "get":
 		k := f[1]
 		u, fam, _ := strings.Cut(k, "/")
-		c, err := mm.m.GetConn(u, mm.localAddr(fam))
+		c, err := mm.front.GetConn(u, mm.localAddr(fam))
 		if ref.closed {
 			if err == nil {
 				mm.problem("", "GetConn succeeded on a closed mux")
@@ -217,7 +265,12 @@ func (mm *muxModel) Apply(ev string) {
 		p := strings.Split(f[1], ":")
 		k, a := p[0], p[1]
 		h := mm.handles[k][0]
-		_, err := h.conn.WriteTo([]byte("x"), muxSrc[a])
+		var err error
+		if ap, ok := h.conn.(AddrPortReaderWriter); ok && strings.HasSuffix(mm.cfg.Kind, "addrport") {
+			_, err = ap.WriteToAddrPort([]byte("x"), muxSrc[a].AddrPort())
+		} else {
+			_, err = h.conn.WriteTo([]byte("x"), muxSrc[a])
+		}
 		live := ref.reg[k] == h.gen && !ref.closed
 		if err == nil && live {
 			ref.owner[muxCanon[a]] = h.gen
@@ -241,7 +294,11 @@ func (mm *muxModel) Apply(ev string) {
 		if ref.closed {
 			break
 		}
-		mm.bot.in <- botPkt{payload, from}
+		if mm.bot6 != nil && muxFamily(src) == "6" {
+			mm.bot6.in <- botPkt{payload, from} // the datagram arrives at the socket of its own family
+		} else {
+			mm.bot.in <- botPkt{payload, from}
+		}
 		g := ref.owner[muxCanon[src]]
 		if g == 0 && kind != "data" && kind != "nouser" && kind != "broken" {
 			u := strings.Split(kind, ":")[0]
@@ -252,7 +309,7 @@ func (mm *muxModel) Apply(ev string) {
 			ref.q[g] = append(ref.q[g], fmt.Sprintf("%x@%v", payload, &want))
 		}
 	case "remove":
-		mm.m.RemoveConnByUfrag(f[1])
+		mm.front.RemoveConnByUfrag(f[1])
 		for _, fam := range []string{"4", "6"} {
 			k := f[1] + "/" + fam
 			if g := ref.reg[k]; g != 0 {
@@ -278,7 +335,7 @@ func (mm *muxModel) Apply(ev string) {
 			mm.dropOwner(h.gen)
 		}
 	case "closemux":
-		_ = mm.m.Close()
+		_ = mm.front.Close()
 		ref.closed = true
 		ref.owner = map[string]int{}
 		for k := range ref.reg {
@@ -303,7 +360,16 @@ func (mm *muxModel) drain() {
 			for {
 				_ = h.conn.SetReadDeadline(time.Now().Add(-time.Second))
 				buf := make([]byte, 2000)
-				n, from, err := h.conn.ReadFrom(buf)
+				var n int
+				var from net.Addr
+				var err error
+				if ap, ok := h.conn.(AddrPortReaderWriter); ok && strings.HasSuffix(mm.cfg.Kind, "addrport") {
+					var fap netip.AddrPort
+					n, fap, err = ap.ReadFromAddrPort(buf)
+					from = net.UDPAddrFromAddrPort(fap)
+				} else {
+					n, from, err = h.conn.ReadFrom(buf)
+				}
 				if err != nil {
 					break
 				}
@@ -362,19 +428,21 @@ func (mm *muxModel) Key() (string, []int) {
 	sort.Strings(ks)
 	// implementation-side part: registered ufrags and address bindings
 	var ik []string
-	mm.m.mu.Lock()
-	for u := range mm.m.connsIPv4 {
-		ik = append(ik, "c4:"+u)
+	for i, m := range mm.ms {
+		m.mu.Lock()
+		for u := range m.connsIPv4 {
+			ik = append(ik, fmt.Sprintf("%d.c4:%s", i, u))
+		}
+		for u := range m.connsIPv6 {
+			ik = append(ik, fmt.Sprintf("%d.c6:%s", i, u))
+		}
+		m.mu.Unlock()
+		m.addressMapMu.Lock()
+		for a, c := range m.addressMap {
+			ik = append(ik, fmt.Sprintf("%d.a:%s=%s", i, a.String(), c.params.Key))
+		}
+		m.addressMapMu.Unlock()
 	}
-	for u := range mm.m.connsIPv6 {
-		ik = append(ik, "c6:"+u)
-	}
-	mm.m.mu.Unlock()
-	mm.m.addressMapMu.Lock()
-	for a, c := range mm.m.addressMap {
-		ik = append(ik, "a:"+a.String()+"="+c.params.Key)
-	}
-	mm.m.addressMapMu.Unlock()
 	sort.Strings(ik)
 
 	return fmt.Sprintf("%v|%v##%s gen=%d", ks, ref.closed, strings.Join(ik, ","), ref.gen), []int{mm.depth}
@@ -382,22 +450,24 @@ func (mm *muxModel) Key() (string, []int) {
 
 func (mm *muxModel) Problems() []vtProblem {
 	// after removal / close the address bindings are gone
-	mm.m.addressMapMu.Lock()
-	for a, c := range mm.m.addressMap {
-		live := false
-		mm.m.mu.Lock()
-		for _, rc := range mm.m.connsIPv4 {
-			live = live || rc == c
+	for _, m := range mm.ms {
+		m.addressMapMu.Lock()
+		for a, c := range m.addressMap {
+			live := false
+			m.mu.Lock()
+			for _, rc := range m.connsIPv4 {
+				live = live || rc == c
+			}
+			for _, rc := range m.connsIPv6 {
+				live = live || rc == c
+			}
+			m.mu.Unlock()
+			if !live {
+				mm.problems = append(mm.problems, vtProblem{"S7", fmt.Sprintf("address binding %s still points at connection %q which is no longer registered", a, c.params.Key)})
+			}
 		}
-		for _, rc := range mm.m.connsIPv6 {
-			live = live || rc == c
-		}
-		mm.m.mu.Unlock()
-		if !live {
-			mm.problems = append(mm.problems, vtProblem{"S7", fmt.Sprintf("address binding %s still points at connection %q which is no longer registered", a, c.params.Key)})
-		}
+		m.addressMapMu.Unlock()
 	}
-	mm.m.addressMapMu.Unlock()
 	p := mm.problems
 	mm.problems = nil
 
@@ -412,7 +482,7 @@ func (mm *muxModel) Close() {
 			_ = h.conn.Close()
 		}
 	}
-	_ = mm.m.Close()
+	_ = mm.front.Close()
 	synctest.Wait()
 }
 
@@ -427,6 +497,10 @@ func checkC12(c *runCtx) {
 		depth = 7
 	}
 	vtSearch(c, p, vtSpec{Name: fmt.Sprintf("UDPMuxDefault, all sequences of length <= %d", depth), Model: "udpmux", Cfg: muxCfg{Depth: depth}, Deadline: dl})
+	vtSearch(c, p, vtSpec{Name: fmt.Sprintf("UDPMuxDefault over a socket with netip.AddrPort I/O, handles used through their AddrPort methods, length <= %d", depth-1), Model: "udpmux", Cfg: muxCfg{Depth: depth - 1, Kind: "addrport"}, Deadline: dl})
+	vtSearch(c, p, vtSpec{Name: fmt.Sprintf("UniversalUDPMuxDefault, length <= %d", depth-1), Model: "udpmux", Cfg: muxCfg{Depth: depth - 1, Kind: "universal"}, Deadline: dl})
+	vtSearch(c, p, vtSpec{Name: fmt.Sprintf("UniversalUDPMuxDefault over an AddrPort socket, length <= %d", depth-2), Model: "udpmux", Cfg: muxCfg{Depth: depth - 2, Kind: "universal-addrport"}, Deadline: dl})
+	vtSearch(c, p, vtSpec{Name: fmt.Sprintf("MultiUDPMuxDefault over one mux per local address, length <= %d", depth-1), Model: "udpmux", Cfg: muxCfg{Depth: depth - 1, Kind: "multi"}, Deadline: dl})
 	if os.Getenv("VERIF_VARIANT") == "instr" {
 		b := 3
 		if !c.quick() {
